@@ -1,0 +1,47 @@
+//go:build verif
+// +build verif
+
+package weighted_sum
+
+// Contracts for gocv (comment-only; compiled out unless the tag "verif" is set, and empty then).
+
+// This listener's definitions of the abstract predicates of model.BiasListener
+//@ pred wsValid(l model.BiasListener, p model.MethodParameters) = typeis(p, weightedSumParams) && p.(weightedSumParams).weightedCriteria != nil
+//@ pred wsCovers(l model.BiasListener, p model.MethodParameters, id string) =
+//@      typeis(p, weightedSumParams) && p.(weightedSumParams).weightedCriteria != nil
+//@   && exists k int :: 0 <= k && k < len(*p.(weightedSumParams).weightedCriteria) && (*p.(weightedSumParams).weightedCriteria)[k].Id == id
+//@ pred wsAcceptsAny(l model.BiasListener, x model.MethodParameters) = typeis(x, WeightedSumAddedCriterion)
+//@ pred wsAccepts(l model.BiasListener, x model.MethodParameters, id string) =
+//@      typeis(x, WeightedSumAddedCriterion) && exists k int :: 0 <= k && k < len(x.(WeightedSumAddedCriterion).weights) && x.(WeightedSumAddedCriterion).weights[k].Id == id
+
+//@ func (*weightedSumParams).Criterion
+//@   property C07 C15 C18
+//@   requires p.weightedCriteria != nil
+//@   panics_iff [missing] !(exists k int :: 0 <= k && k < len(*p.weightedCriteria) && (*p.weightedCriteria)[k].Id == criterion)
+//@   ensures [first_match] exists k int :: 0 <= k && k < len(*p.weightedCriteria) && result == (*p.weightedCriteria)[k] && result.Id == criterion
+//@   loop 1 invariant [none_before] forall j int :: 0 <= j && j < iter ==> (*p.weightedCriteria)[j].Id != criterion
+
+//@ func (*WeightedSumBiasListener).OnCriteriaRemoved
+//@   property C07 C15
+//@   nopanic
+//@   refines model.BiasListener.OnCriteriaRemoved with validParams=wsValid, coversId=wsCovers
+//@   ensures [weights_kept] typeis(result, weightedSumParams) && len(*result.(weightedSumParams).weightedCriteria) == len(*leftCriteria)
+//@             && forall k int :: 0 <= k && k < len(*leftCriteria) ==> (*result.(weightedSumParams).weightedCriteria)[k].Id == (*leftCriteria)[k].Id
+//@   loop 1 invariant [ctx] fresh(result) && len(result) == len(*leftCriteria)
+//@   loop 1 invariant [kept] forall k int :: 0 <= k && k < iter ==> result[k].Id == (*leftCriteria)[k].Id
+
+//@ func (*WeightedSumBiasListener).OnCriterionAdded
+//@   property C07 C18
+//@   nopanic
+//@   fnparam generator ensures 0.0 <= result && result < 1.0
+//@   refines model.BiasListener.OnCriterionAdded with validParams=wsValid, coversId=wsCovers, accepts=wsAccepts, acceptsAny=wsAcceptsAny
+//@   ensures [weight_is_fraction_of_reference] exists k int :: 0 <= k && k < len(*params.(weightedSumParams).weightedCriteria)
+//@             && (*params.(weightedSumParams).weightedCriteria)[k].Id == referenceCriterion.Id
+//@             && model.fractionOf(result.(WeightedSumAddedCriterion).weights[0].Weight, (*params.(weightedSumParams).weightedCriteria)[k].Weight)
+//@   ensures [reported_weight] result.(WeightedSumAddedCriterion).Weights[criterion.Id] == result.(WeightedSumAddedCriterion).weights[0].Weight
+//@             && len(result.(WeightedSumAddedCriterion).weights) == 1 && result.(WeightedSumAddedCriterion).weights[0].Criterion == *criterion
+
+//@ func (*WeightedSumBiasListener).Merge
+//@   property C07 C18
+//@   nopanic
+//@   refines model.BiasListener.Merge with validParams=wsValid, coversId=wsCovers, accepts=wsAccepts, acceptsAny=wsAcceptsAny
